@@ -1,9 +1,13 @@
 package c20
 
 import (
+	"flag"
+	"strconv"
+
 	"encoding/json"
 	"fmt"
 	"os"
+	"pgregory.net/rapid"
 	"sort"
 	"strings"
 	"testing"
@@ -32,6 +36,14 @@ func TestProbe(t *testing.T) {
 			}
 			sort.Strings(cl)
 			fmt.Printf("open:  property=C20 id=%s clause=%s witness=replays/kf/%s.json  %s\n", k.id, strings.Join(cl, ","), k.id, k.desc)
+		}
+		return
+	}
+	if p == "fixed" { // which classes the hand-written cases are in, and what fails on them
+		for i, c := range fixedCases() {
+			cl, ex := triggered(c)
+			un, att := openFails(c)
+			fmt.Printf("fixed case %d: class masks %v exact masks %v attributed %v unattributed %d\n", i, cl, ex, att, len(un))
 		}
 		return
 	}
@@ -221,13 +233,8 @@ func TestEnumChains(t *testing.T) {
 			}
 			if ok {
 				c := Case{Blocks: []Block{{K: "p", Runs: append([]Run{}, rs...)}}, O: o}
-				res := run(c)
-				fail := false
-				for _, f := range res.Failures {
-					if f.Clause == "C20.E1" || f.Clause == "C20.E2" || f.Clause == "C20.E3" {
-						fail = true
-					}
-				}
+				un, att := openFails(c)
+				fail := len(un)+len(att) > 0
 				cl0, _ := triggered(c)
 				var cl []string
 				for _, x := range cl0 {
@@ -239,7 +246,7 @@ func TestEnumChains(t *testing.T) {
 				if fail {
 					nf++
 				}
-				if fail && len(cl) == 0 {
+				if len(un) > 0 {
 					unc++
 					if unc < 30 {
 						fmt.Printf("UNCOVERED emph=%s %s\n", o.Emph, js1(rs))
@@ -247,7 +254,7 @@ func TestEnumChains(t *testing.T) {
 				}
 				if !fail && len(cl) > 0 {
 					broad++
-					if broad < 15 {
+					if broad < 1500 {
 						fmt.Printf("BROAD emph=%s %s\n", o.Emph, js1(rs))
 					}
 				}
@@ -264,4 +271,400 @@ func TestEnumChains(t *testing.T) {
 		rec(nil, 4, Opts{GFM: true, Bullet: "-", Emph: em, MaxLen: 80})
 	}
 	fmt.Printf("chains=%d failing=%d uncovered=%d broad=%d\n", n, nf, unc, broad)
+}
+
+type failure struct{ clause, detail string }
+
+func openFails(c Case) (un []failure, att []string) {
+	res := run(c)
+	for _, f := range res.Failures {
+		who := ""
+		for _, k := range findings {
+			if isOpen(k.ID) && k.Trigger(c, f) {
+				who = k.ID
+				break
+			}
+		}
+		if who == "" {
+			un = append(un, failure{f.Clause, f.Detail})
+		} else {
+			att = append(att, f.Clause+":"+who)
+		}
+	}
+	return
+}
+
+// TestEnumHostile (C20_ENUM=h): every hostile token in every block kind / position / option that matters;
+// prints the (token, context) pairs with a failure no open finding accounts for.
+func TestEnumHostile(t *testing.T) {
+	if os.Getenv("C20_ENUM") != "h" {
+		t.Skip("C20_ENUM != h")
+	}
+	verbose := os.Getenv("C20_V") != ""
+	toks := append([]string{}, hostileTokens()...)
+	type ctx struct {
+		name string
+		mk   func(tok string) Case
+	}
+	def := Opts{GFM: true, Bullet: "-", Emph: "*", MaxLen: 80}
+	p := func(rs ...Run) Block { return Block{K: "p", Runs: rs} }
+	one := func(o Opts, bs ...Block) Case { return Case{Blocks: bs, O: o} }
+	var ctxs []ctx
+	add := func(name string, mk func(tok string) Case) { ctxs = append(ctxs, ctx{name, mk}) }
+	add("p-alone", func(s string) Case { return one(def, p(Run{T: s})) })
+	add("p-start", func(s string) Case { return one(def, p(Run{T: s + " beta"})) })
+	add("p-mid", func(s string) Case { return one(def, p(Run{T: "alpha " + s + " beta"})) })
+	add("p-end", func(s string) Case { return one(def, p(Run{T: "alpha " + s})) })
+	add("p-intra", func(s string) Case { return one(def, p(Run{T: "x" + s + "y"})) })
+	add("p-twice", func(s string) Case { return one(def, p(Run{T: s + " " + s})) })
+	add("p-after-p", func(s string) Case { return one(def, p(Run{T: "alpha"}), p(Run{T: s})) })
+	add("p-own-run", func(s string) Case { return one(def, p(Run{T: "alpha "}, Run{T: s}, Run{T: " beta"})) })
+	add("p-own-run-touch", func(s string) Case { return one(def, p(Run{T: "alpha"}, Run{T: s}, Run{T: "beta"})) })
+	wrap := def
+	wrap.Wrap, wrap.MaxLen = true, 1
+	add("p-wrap1", func(s string) Case { return one(wrap, p(Run{T: "alpha " + s + " beta " + s})) })
+	for _, m := range []int{mB, mI, mS, mB | mI, mB | mS, mB | mI | mS, mC, mC | mB} {
+		m := m
+		mkr := func(s string) Run { return Run{T: s, B: m&mB != 0, I: m&mI != 0, S: m&mS != 0, C: m&mC != 0} }
+		add(fmt.Sprintf("fmt%d-spaced", m), func(s string) Case { return one(def, p(Run{T: "alpha "}, mkr(s), Run{T: " beta"})) })
+		add(fmt.Sprintf("fmt%d-inner", m), func(s string) Case { return one(def, p(Run{T: "alpha "}, mkr("k "+s+" q"), Run{T: " beta"})) })
+		add(fmt.Sprintf("fmt%d-alone", m), func(s string) Case { return one(def, p(mkr("k "+s+" q"))) })
+		add(fmt.Sprintf("fmt%d-wrap1", m), func(s string) Case { return one(wrap, p(Run{T: "alpha "}, mkr("k "+s+" q"), Run{T: " beta"})) })
+	}
+	us := def
+	us.Emph = "_"
+	for _, m := range []int{mI, mI | mS, mI | mC, mB | mI} {
+		m := m
+		mkr := func(s string) Run { return Run{T: s, B: m&mB != 0, I: m&mI != 0, S: m&mS != 0, C: m&mC != 0} }
+		add(fmt.Sprintf("us-fmt%d-spaced", m), func(s string) Case { return one(us, p(Run{T: "alpha "}, mkr(s), Run{T: " beta"})) })
+		add(fmt.Sprintf("us-fmt%d-alone", m), func(s string) Case { return one(us, p(mkr(s))) })
+		add(fmt.Sprintf("us-fmt%d-touch", m), func(s string) Case { return one(us, p(Run{T: "alpha"}, mkr("k "+s+" q"), Run{T: "beta"})) })
+	}
+	add("cell-plainhdr", func(s string) Case {
+		return one(def, Block{K: "table", Cells: [][]string{{s, "alpha " + s}, {"c", s}}})
+	})
+	add("fmtI_-inner", func(s string) Case {
+		return one(us, p(Run{T: "alpha "}, Run{T: "k " + s + " q", I: true}, Run{T: " beta"}))
+	})
+	for _, lv := range []int{1, 2, 3, 6} {
+		lv := lv
+		add(fmt.Sprintf("h%d", lv), func(s string) Case { return one(def, Block{K: "h", Level: lv, T: s}, p(Run{T: "after"})) })
+		add(fmt.Sprintf("h%d-mid", lv), func(s string) Case {
+			return one(def, Block{K: "h", Level: lv, T: "alpha " + s + " beta"}, p(Run{T: "after"}))
+		})
+		add(fmt.Sprintf("h%d-end", lv), func(s string) Case { return one(def, Block{K: "h", Level: lv, T: "alpha " + s}, p(Run{T: "after"})) })
+	}
+	se := def
+	se.Setext = true
+	for _, lv := range []int{1, 2} {
+		lv := lv
+		add(fmt.Sprintf("setext%d", lv), func(s string) Case {
+			return one(se, p(Run{T: "before"}), Block{K: "h", Level: lv, T: s}, p(Run{T: "after"}))
+		})
+		add(fmt.Sprintf("setext%d-mid", lv), func(s string) Case {
+			return one(se, Block{K: "h", Level: lv, T: "alpha " + s + " beta"}, p(Run{T: "after"}))
+		})
+	}
+	for _, b := range []string{"-", "*", "+"} {
+		o := def
+		o.Bullet = b
+		add("li"+b, func(s string) Case {
+			return one(o, p(Run{T: "before"}), Block{K: "li", T: s}, Block{K: "li", T: "alpha " + s}, p(Run{T: "after"}))
+		})
+		add("li"+b+"-start", func(s string) Case { return one(o, Block{K: "li", T: s + " beta"}, p(Run{T: "after"})) })
+	}
+	add("li-ord", func(s string) Case {
+		return one(def, Block{K: "li", Ord: true, T: s}, Block{K: "li", Ord: true, T: s + " beta"})
+	})
+	add("q", func(s string) Case { return one(def, p(Run{T: "before"}), Block{K: "q", T: s}, p(Run{T: "after"})) })
+	add("q-mid", func(s string) Case {
+		return one(def, Block{K: "q", T: "alpha " + s + " beta"}, Block{K: "q", T: s + " beta"})
+	})
+	add("cell-hdr", func(s string) Case {
+		return one(def, Block{K: "table", HdrBold: true, Cells: [][]string{{s, "b"}, {"c", "d"}}})
+	})
+	add("cell-body", func(s string) Case {
+		return one(def, Block{K: "table", HdrBold: true, Cells: [][]string{{"a", "b"}, {s, "alpha " + s + " beta"}}})
+	})
+	add("cell-last", func(s string) Case {
+		return one(def, p(Run{T: "before"}), Block{K: "table", HdrBold: true, Cells: [][]string{{"a", "b"}, {"c", s}}}, p(Run{T: "after"}))
+	})
+	add("cell-1x1", func(s string) Case { return one(def, Block{K: "table", HdrBold: true, Cells: [][]string{{s}}}) })
+	add("code", func(s string) Case { return one(def, p(Run{T: "before"}), Block{K: "code", T: s}, p(Run{T: "after"})) })
+	add("code-mid", func(s string) Case {
+		return one(def, Block{K: "code", T: "alpha " + s + " beta"}, Block{K: "code", T: s + " beta"})
+	})
+	sg := def
+	sg.GFM = false
+	add("simple-cell", func(s string) Case {
+		return one(sg, p(Run{T: "before"}), Block{K: "table", HdrBold: true, Cells: [][]string{{"a", s}, {s, "d"}}}, p(Run{T: "after"}))
+	})
+	add("simple-cell-plainhdr", func(s string) Case {
+		return one(sg, Block{K: "table", Cells: [][]string{{s, "b"}, {"c", "alpha " + s}}})
+	})
+
+	bad := map[string][]string{}
+	n := 0
+	for _, cx := range ctxs {
+		for _, tok := range toks {
+			c := cx.mk(tok)
+			n++
+			un, _ := openFails(c)
+			if len(un) == 0 {
+				continue
+			}
+			var cl []string
+			for _, f := range un {
+				cl = append(cl, strings.TrimPrefix(f.clause, "C20."))
+			}
+			key := cx.name + " [" + strings.Join(cl, ",") + "]"
+			bad[key] = append(bad[key], tok)
+			if verbose {
+				fmt.Printf("--- %s tok=%q\n    %s\n    %.400s\n", cx.name, tok, js1(c), un[0].detail)
+			}
+		}
+	}
+	keys := make([]string, 0, len(bad))
+	for k := range bad {
+		keys = append(keys, k)
+	}
+	sort.Strings(keys)
+	for _, k := range keys {
+		fmt.Printf("%-40s %q\n", k, bad[k])
+	}
+	fmt.Printf("cases=%d contexts-with-failures=%d\n", n, len(keys))
+}
+
+// TestEnumEdges (C20_ENUM=e): formatted runs whose text begins/ends with punctuation of several kinds, between
+// plain neighbours that touch them with letters, blanks or punctuation, and pairs/triples of touching formatted
+// runs with such texts: every case failing E1-E5 must be inside an open finding's class (UNCOVERED), and the
+// classes should not hold passing cases (BROAD).
+func TestEnumEdges(t *testing.T) {
+	if os.Getenv("C20_ENUM") != "e" {
+		t.Skip("C20_ENUM != e")
+	}
+	mk := func(m int, s string) Run { return Run{T: s, B: m&mB != 0, I: m&mI != 0, S: m&mS != 0, C: m&mC != 0} }
+	masks := []int{mB, mI, mB | mI, mS, mB | mS, mI | mS, mB | mI | mS, mC, mB | mC, mI | mC, mS | mC, mB | mS | mC}
+	texts := []string{"a", "a.", ".a", "(a)", "*a", "a*", "_a_", "~a", "a~", "`a", "a`", "“a”", "a—", "$a", "a+", "<a>", "&a;", "\\a", "a\\", "1.", "#", "-", "a b", "€a", "a©"}
+	lefts := []string{"", "x", "x ", "x.", "x*", "x~", "x\\", "中", "x ", "x—", "x$"}
+	rights := []string{"", "y", " y", ".y", "*y", "~y", "\\y", "文", " y", "—y", "$y"}
+	unc, broad, n, nf := 0, 0, 0, 0
+	note := func(o Opts, rs ...Run) {
+		var keep []Run
+		for _, r := range rs {
+			if r.T != "" {
+				keep = append(keep, r)
+			}
+		}
+		c := Case{Blocks: []Block{{K: "p", Runs: keep}}, O: o}
+		un, att := openFails(c)
+		cl, _ := triggered(c)
+		n++
+		if len(un) > 0 {
+			nf++
+			unc++
+			if os.Getenv("C20_V") != "" {
+				fmt.Printf("UNCOVERED emph=%s %s %s: %.200s\n", o.Emph, js1(keep), un[0].clause, un[0].detail)
+			} else {
+				var sb strings.Builder
+				for _, r := range keep {
+					sb.WriteString(fmt.Sprintf("%d%q ", r.mask(), r.T))
+				}
+				fmt.Printf("UNC %s %s %s\n", o.Emph, strings.TrimPrefix(un[0].clause, "C20."), sb.String())
+			}
+		} else if len(att) > 0 {
+			nf++
+		} else if len(cl) > 0 {
+			broad++
+			if broad <= 25 {
+				fmt.Printf("BROAD emph=%s %s\n", o.Emph, js1(keep))
+			}
+		}
+	}
+	for _, em := range []string{"*", "_"} {
+		o := Opts{GFM: true, Bullet: "-", Emph: em, MaxLen: 80}
+		for _, m := range masks {
+			for _, tx := range texts {
+				for _, l := range lefts {
+					for _, r := range rights {
+						note(o, mk(0, l), mk(m, tx), mk(0, r))
+					}
+				}
+			}
+		}
+		// touching formatted pairs with punctuation at the junction
+		jt := []string{"a", "a.", ".a", "*a", "a*", "(a)"}
+		for _, m1 := range masks {
+			for _, m2 := range masks {
+				if m1 == m2 {
+					continue
+				}
+				for _, t1 := range jt {
+					for _, t2 := range jt {
+						note(o, mk(m1, t1), mk(m2, t2))
+						note(o, mk(0, "x"), mk(m1, t1), mk(m2, t2), mk(0, "y"))
+					}
+				}
+			}
+		}
+	}
+	fmt.Printf("edges: cases=%d failing=%d uncovered=%d broad=%d\n", n, nf, unc, broad)
+}
+
+// TestEnumStars (C20_ENUM=s): chains of 3..5 touching runs over {B, I, BI} (no equal neighbours), alone and
+// between touching plain letters: which fail?
+func TestEnumStars(t *testing.T) {
+	if os.Getenv("C20_ENUM") != "s" {
+		t.Skip("C20_ENUM != s")
+	}
+	o := Opts{GFM: true, Bullet: "-", Emph: "*", MaxLen: 80}
+	ms := []int{mB, mI, mB | mI}
+	var rec func(seq []int, depth int)
+	rec = func(seq []int, depth int) {
+		if len(seq) >= 3 {
+			for _, wrapd := range []bool{false, true} {
+				var rs []Run
+				if wrapd {
+					rs = append(rs, Run{T: "x"})
+				}
+				for _, m := range seq {
+					rs = append(rs, Run{T: "a", B: m&mB != 0, I: m&mI != 0})
+				}
+				if wrapd {
+					rs = append(rs, Run{T: "y"})
+				}
+				c := Case{Blocks: []Block{{K: "p", Runs: rs}}, O: o}
+				res := run(c)
+				st := "ok  "
+				if len(res.Failures) > 0 {
+					st = "FAIL"
+				}
+				fmt.Printf("%s wrapped=%v %v\n", st, wrapd, seq)
+			}
+		}
+		if depth == 0 {
+			return
+		}
+		for _, m := range ms {
+			if len(seq) > 0 && seq[len(seq)-1] == m {
+				continue
+			}
+			rec(append(append([]int{}, seq...), m), depth-1)
+		}
+	}
+	rec(nil, 5)
+}
+
+// TestSurvey (C20_SURVEY=<n>): n generated cases; instead of stopping at the first violation, lists the smallest
+// cases with a failure no open finding accounts for, grouped by clause set.
+func TestSurvey(t *testing.T) {
+	n, _ := strconv.Atoi(os.Getenv("C20_SURVEY"))
+	if n <= 0 {
+		t.Skip("C20_SURVEY not set")
+	}
+	type hit struct {
+		js, detail string
+	}
+	groups := map[string][]hit{}
+	total, bad := 0, 0
+	flag.Set("rapid.checks", strconv.Itoa(n))
+	rapid.Check(t, func(rt *rapid.T) {
+		c := genCase(rt)
+		total++
+		un, _ := openFails(c)
+		if len(un) == 0 {
+			return
+		}
+		bad++
+		var cl []string
+		for _, f := range un {
+			cl = append(cl, strings.TrimPrefix(f.clause, "C20."))
+		}
+		k := strings.Join(cl, ",")
+		groups[k] = append(groups[k], hit{js1(c), un[0].detail})
+	})
+	for k, hs := range groups {
+		sort.Slice(hs, func(i, j int) bool { return len(hs[i].js) < len(hs[j].js) })
+		fmt.Printf("##### clauses %s: %d cases\n", k, len(hs))
+		for i := 0; i < len(hs) && i < 6; i++ {
+			fmt.Printf("  %s\n    %.500s\n", hs[i].js, hs[i].detail)
+		}
+	}
+	fmt.Printf("survey: cases=%d with-unattributed-failures=%d\n", total, bad)
+}
+
+// TestEnumAutolinks (C20_ENUM=a): autolink-like words at the edges of formatted runs and of their plain neighbours,
+// in header cells and headings.
+func TestEnumAutolinks(t *testing.T) {
+	if os.Getenv("C20_ENUM") != "a" {
+		t.Skip("C20_ENUM != a")
+	}
+	mk := func(m int, s string) Run { return Run{T: s, B: m&mB != 0, I: m&mI != 0, S: m&mS != 0, C: m&mC != 0} }
+	def := Opts{GFM: true, Bullet: "-", Emph: "*", MaxLen: 80}
+	us := def
+	us.Emph = "_"
+	toks := append(append([]string{}, hostileClasses["autolink"]...), hostileClasses["autolinkx"]...)
+	toks = append(toks, "xwww.a.b", "www.a.bx", "http://", "www.", "a@b", "x.a@b.co", "http://a.b/c)", "(http://a.b/c)", "http://a.b/c.", "www.a.b/c~", "a@b.co.", "a@b.co-", "a@b.co_")
+	bad := map[string][]string{}
+	n := 0
+	broad := 0
+	note := func(ctx string, tok string, c Case) {
+		n++
+		un, att := openFails(c)
+		if cl, _ := triggered(c); len(un) == 0 && len(att) == 0 && len(cl) > 0 {
+			broad++
+			if os.Getenv("C20_V") != "" {
+				fmt.Printf("BROAD %s %q %s\n", ctx, tok, js1(c.Blocks))
+			}
+		}
+		if len(un) == 0 {
+			return
+		}
+		var cl []string
+		for _, f := range un {
+			cl = append(cl, strings.TrimPrefix(f.clause, "C20."))
+		}
+		k := ctx + " [" + strings.Join(cl, ",") + "]"
+		bad[k] = append(bad[k], tok)
+		if os.Getenv("C20_V") != "" {
+			fmt.Printf("--- %s %q: %.300s\n", ctx, tok, un[0].detail)
+		}
+	}
+	for _, o := range []Opts{def, us} {
+		for _, m := range []int{mB, mI, mS, mB | mI, mB | mS, mC, mB | mC} {
+			for _, tok := range toks {
+				p := func(rs ...Run) Case { return Case{Blocks: []Block{{K: "p", Runs: rs}}, O: o} }
+				tag := fmt.Sprintf("emph%s m%d ", o.Emph, m)
+				note(tag+"plain-tok|fmt", tok, p(mk(0, "see "+tok), mk(m, "a")))
+				note(tag+"fmt|tok-plain", tok, p(mk(m, "a"), mk(0, tok+" z")))
+				note(tag+"fmt(tok..)", tok, p(mk(0, "see "), mk(m, tok+" a"), mk(0, " z")))
+				note(tag+"fmt(..tok)", tok, p(mk(0, "see "), mk(m, "a "+tok), mk(0, " z")))
+				note(tag+"fmt(tok)", tok, p(mk(0, "see "), mk(m, tok), mk(0, " z")))
+				note(tag+"x|fmt(tok)|y", tok, p(mk(0, "x"), mk(m, tok), mk(0, "y")))
+				note(tag+"fmt(..tok)|fmt", tok, p(mk(m, "a "+tok), mk(m^mB^mS, "b")))
+				note(tag+"fmt(tok)|y", tok, p(mk(0, "see "), mk(m, tok), mk(0, "y")))
+				note(tag+"x|fmt(tok)", tok, p(mk(0, "x"), mk(m, tok), mk(0, " z")))
+				note(tag+"fmt|fmt(tok)", tok, p(mk(m^mB^mS, "b"), mk(m, tok)))
+				note(tag+"(fmt(tok))", tok, p(mk(0, "see ("), mk(m, tok), mk(0, ") z")))
+			}
+		}
+		for _, tok := range toks {
+			note("hdr-cell", tok, Case{Blocks: []Block{{K: "table", HdrBold: true, Cells: [][]string{{tok, "a " + tok}, {tok + " a", "d"}}}}, O: o})
+			note("body-cell", tok, Case{Blocks: []Block{{K: "table", HdrBold: true, Cells: [][]string{{"a", "b"}, {tok, "a " + tok}}}}, O: o})
+			for _, lv := range []int{1, 3, 6} {
+				note(fmt.Sprintf("h%d", lv), tok, Case{Blocks: []Block{{K: "h", Level: lv, T: tok}, {K: "h", Level: lv, T: "a " + tok}, {K: "h", Level: lv, T: tok + " a"}}, O: o})
+			}
+			note("li", tok, Case{Blocks: []Block{{K: "li", T: tok}, {K: "li", T: "a " + tok}}, O: o})
+			note("q", tok, Case{Blocks: []Block{{K: "q", T: tok}, {K: "q", T: "a " + tok}}, O: o})
+		}
+	}
+	keys := make([]string, 0, len(bad))
+	for k := range bad {
+		keys = append(keys, k)
+	}
+	sort.Strings(keys)
+	for _, k := range keys {
+		fmt.Printf("%-44s %q\n", k, bad[k])
+	}
+	fmt.Printf("autolinks: cases=%d uncovered-contexts=%d broad=%d\n", n, len(keys), broad)
 }
